@@ -19,11 +19,12 @@
 (* at f - b and at f + 1 + b frames of tween time (0.1 dB for rounding).    *)
 EXTENDS Integers
 
-PInit(c) == [c |-> c]
+PInit(c) == [c |-> c, prev |-> 9999]
 Tol == 10
 Ref(c, tau) == LET t == IF tau < 0 THEN 0 ELSE IF tau > c.d THEN c.d ELSE tau IN
                \* (a zero-length tween takes effect at the next update, interpolated across that chunk)
                IF c.d = 0 THEN (IF tau <= 0 THEN c.from ELSE c.to) ELSE c.from + ((c.to - c.from) * t) \div c.d
+Abs(x) == IF x < 0 THEN -x ELSE x
 Min(a, b) == IF a < b THEN a ELSE b
 Max(a, b) == IF a > b THEN a ELSE b
 
@@ -37,10 +38,20 @@ Check(m, e) ==
                   lo == Min(a, z) - Tol
                   hi == Max(a, z) + Tol
                   g == IF e.g = -9999 THEN -6000 ELSE e.g
-              IN IF g < lo THEN (IF c.to < c.from THEN "tween_not_ahead_of_its_time" ELSE "tween_not_behind_its_time")
+                  \* "within and across chunks the value is continuous (each chunk interpolates from the previous chunk's final
+                  \* value)": a linear tween of d frames moves by (to - from) / d per frame wherever the chunk boundaries fall
+                  \* (less in the chunk in which it ends); a zero-length one is spread over one chunk, which may be one frame
+                  span == IF c.d > 1 THEN c.d ELSE 1
+                  step == (Abs(c.to - c.from) + span - 1) \div span + 2 * Tol
+                  p == IF m.prev = -9999 THEN -6000 ELSE m.prev
+                  \* (a pause fade ends in a state change: the chunk during which it completes is silent as a whole - "to within
+                  \*  one callback", C03 - so the last step to exact silence is not a step of the tween)
+                  lastStep == e.g = -9999 /\ c.to = -6000
+              IN IF m.prev # 9999 /\ ~lastStep /\ Abs(g - p) > step THEN "value_is_continuous_from_frame_to_frame"
+                 ELSE IF g < lo THEN (IF c.to < c.from THEN "tween_not_ahead_of_its_time" ELSE "tween_not_behind_its_time")
                  ELSE IF g > hi THEN (IF c.to < c.from THEN "tween_not_behind_its_time" ELSE "tween_not_ahead_of_its_time")
                  ELSE ""
     [] e.a = "panic" -> "no_panic"
     [] OTHER -> ""
-Upd(m, e) == m
+Upd(m, e) == IF e.a = "fr" THEN [m EXCEPT !.prev = e.g] ELSE m
 =============================================================================
